@@ -105,7 +105,9 @@ def check(run, M, tier):
     done_pub = M.method(base, "done", inherit=False)
     if done_pub is None:
         raise AnchorMissing("Alg.done")
-    src = unparse(done_pub.body[-1]).replace(" ", "")
+    from ..model import resolve_temp
+    last = done_pub.body[-1]
+    src = "return" + unparse(resolve_temp(done_pub.node, last.value)).replace(" ", "") if isinstance(last, ast.Return) and last.value is not None else unparse(last).replace(" ", "")
     run.check(src == "returnself._done()", "T2", "Alg.done", done_pub.loc(), "done() returns self._done()", "Alg.done is `%s`" % unparse(done_pub.body[-1]), stmt="T2:done")
     dones = []
     for c in [base] + algs:
@@ -302,7 +304,8 @@ def _t4(run, M):
             run.check(n == 1 and p._loop is None if hasattr(p, "_loop") else n == 1, "T4", "App.run body path", f.loc(w), "exactly one alg.update() per iteration",
                       "a path through the loop body of App.run performs %d alg.update() call(s)" % n, stmt="T4:body")
     rets = [n for n in walk_no_nested(f.node) if isinstance(n, ast.Return)]
-    ok = len(rets) == 1 and rets[0].value is not None and unparse(rets[0].value).replace(" ", "") == "self._output()"
+    from ..model import resolve_temp
+    ok = len(rets) == 1 and rets[0].value is not None and unparse(resolve_temp(f.node, rets[0].value)).replace(" ", "") == "self._output()"
     run.check(ok, "T4", "App.run return", f.loc(), "returns self._output()", "App.run returns `%s`" % (unparse(rets[0].value) if rets and rets[0].value else None), stmt="T4:ret")
     # no update outside the loop
     outside = [c for c in calls_in(f.node) if isinstance(c.func, ast.Attribute) and c.func.attr == "update" and "alg" in unparse(c.func.value)
